@@ -65,6 +65,12 @@ def predicate(res, hr):
         if dmp is None:
             continue
         cur = fmap(dmp)
+        if ev["t"] == "restart" and obs and obs.get("before") and obs.get("after"):
+            # a dropped count stays dropped: what a restart brings back is what was there when the server stopped, nothing older
+            b_, a_ = fmap(obs["before"]), fmap(obs["after"])
+            back = {k: v for k, v in a_.items() if k not in b_}
+            if back:
+                res.violation(f"counts that were not there at shutdown are back after the restart: {back} (a count dropped as stale returns from the file)", rep)
         if ev["t"] == "convert" and obs is not None:
             live[obs["sid"]] = (ev["ctx"], obs["texts"], ev["input"])
             if cur != prev:
@@ -305,6 +311,9 @@ def run(tier, seed):
     items.append((dict(two_ctx), [{"kind": "convert", "input": "き", "context": "Normal"}, {"kind": "confirm", "session": 0, "cid": "0", "text": "木"},
                                   {"kind": "convert", "input": "き", "context": "ForeignWord"}, {"kind": "confirm", "session": 1, "cid": "0", "text": "気"},
                                   {"kind": "convert", "input": "き", "context": "Numeral"}, {"kind": "confirm", "session": 2, "cid": "0", "text": "木"}]))
+    # stale counts dropped by a confirmation, then a save and a restart: they must not come back from the file
+    items.append((dict(two_ctx), [{"kind": "convert", "input": "き", "context": "Normal"}, {"kind": "confirm", "session": 0, "cid": "0", "text": "気"}, {"kind": "wait_save"},
+                                  {"kind": "restart"}, {"kind": "convert", "input": "き", "context": "Normal"}, {"kind": "confirm", "session": 1, "cid": "0"}]))
     runs = run_histories(items, threads=12)
     nontrivial = sum(1 for hr in runs if predicate(res, hr))
     rr = rerank_predicate(res, tier, rnd)
